@@ -25,6 +25,34 @@ def norm(v):
     return v
 
 
+def ref_outcome(spec, w, cpsr):
+    """outcome token of the reference decode for a (possibly provenance-tracking) word: row name + ok / unpred / undef; used for path discovery only"""
+    from vf.ref.enc import decode as table_decode
+    row, _ = table_decode(spec.table, w)
+    if row is None:
+        return 'unallocated'
+    h = REG.get(row.name)
+    if h is None:
+        return row.name
+    M = Machine({'cpsr': int(cpsr), 'sctlr': 0, 'scr': 0, 'R.PC': 0}, [], diff.full_cfg(None))
+    M.word = w
+    f = dict(row.extract(w))
+    f['_w'] = w
+    f['_row'] = row.name
+    try:
+        # (written so that only the should-be bits are looked at: ~w would depend on - and concretise - every bit of the word)
+        if (row.sbz and (w & row.sbz) != 0) or (row.sbo and (w & row.sbo) != row.sbo):
+            return row.name + ':unpred'
+        h[0](M, f)
+        return row.name + ':ok'
+    except Unpred:
+        return row.name + ':unpred'
+    except Undef:
+        return row.name + ':undef'
+    except (NotImpl, Skip):
+        return row.name + ':skip'
+
+
 def compare(acc, spec, cpu, w, row, rng, full, cfgov=None):
     h = REG.get(row.name)
     if h is None:
